@@ -586,3 +586,44 @@ func VerifChoiceFaultRetry() {
 	}
 	vAssertSameBuckets(snapR, vSnapshot(envF.model), lbl+"-stores")
 }
+
+// VerifChoiceReapply (C09 over the choice scenarios): a live intent is re-submitted verbatim
+// (name, priority, content as stored) from an arbitrary Inv-state: nothing is sent in any
+// encoding and both stores stay as they are - whether the intent's case wins the choice or not.
+func VerifChoiceReapply() {
+	sc := v08PickScenario()
+	env := vNewEnv()
+	env.tgt.AllEncodings = true
+	pre := v08ArbitraryState(sc)
+	pre.install(env)
+	o := sc.owners[verifrt.Choice("re.owner", len(sc.owners))]
+	verifrt.Assume(pre.cas[o] >= 0)
+	req := &v08Request{owner: o, prio: pre.prio[o], cas: pre.cas[o], pres: map[string]bool{}, val: map[string]v08Val{}}
+	for _, l := range sc.leaves {
+		if pre.pres[l.id][o] {
+			req.pres[l.id] = true
+			req.val[l.id] = pre.val[l.id][o]
+		}
+	}
+	before := vSnapshot(env.model)
+	verifrt.Reach("state-built")
+	rsp, err := v08Step(env, sc, "t1", req)
+	verifrt.Assert(err == nil && !vHasErrors(rsp), "valid-request-accepted")
+	if err != nil || vHasErrors(rsp) {
+		return
+	}
+	verifrt.Reach("step-done")
+	// situation: does the re-submitted intent hold the winning case?
+	situation := "/intent-holds-the-winning-case"
+	if w := pre.winner(); w >= 0 && pre.cas[o] != w {
+		situation = "/intent-holds-a-losing-case"
+	}
+	for i := 0; i < env.tgt.Sets; i++ {
+		verifrt.Assert(len(env.tgt.Updates[i]) == 0, "C09-choice-no-proto-update"+situation)
+		verifrt.Assert(len(env.tgt.Deletes[i]) == 0, "C09-choice-no-proto-delete"+situation)
+		verifrt.Assert(env.tgt.JsonEmpty[i], "C09-choice-json-empty"+situation)
+		verifrt.Assert(env.tgt.JsonIetfEmpty[i], "C09-choice-json-ietf-empty"+situation)
+		verifrt.Assert(env.tgt.XmlEmpty[i], "C09-choice-xml-empty"+situation)
+	}
+	vAssertSameBuckets(before, vSnapshot(env.model), "C09-choice-stores-unchanged")
+}
